@@ -18,6 +18,7 @@ type specCtx struct {
 	bind    map[types.Object]Value
 	results []Value
 	preAlloc Term // alloc array before the call (for fresh())
+	lenient  bool // locals without a value on this path are unconstrained (ensures-local)
 }
 
 type inlineCtx struct {
@@ -323,8 +324,10 @@ func (fv *FV) havocObject(e *Env, r Term, t types.Type) {
 
 func (fv *FV) havocSliceElems(e *Env, s Value, elem types.Type) {
 	if isObjectType(elem) {
-		fv.note("havoc of struct-element slice: heap havocked")
-		fv.havocAll(e)
+		// elements are objects at element addresses: forget the fields of all objects of that type
+		for _, c := range leafComps(elem) {
+			fv.havocComp(e, c)
+		}
 		return
 	}
 	k, es := sortOf(elem)
@@ -857,6 +860,14 @@ func (fv *FV) modLocations(pre *Env, cl *Clause, bind map[types.Object]Value) []
 				{kind: "cell", comp: kvVal, ref: tNull, sort: arrSort(sInt, sInt)},
 				{kind: "cell", comp: kvWrites, ref: tNull, sort: sInt},
 			}
+		}
+		if fn, _, _ := fv.calleeOf(call); fn != nil && fn.Name() == "gh_hdr" && len(call.Args) == 1 {
+			// modifies hdr(x): the slice header stored at location x, not the elements
+			lv := fv.lvalue(pre, call.Args[0])
+			if lv.kind == lvCell && len(lv.idx) == 1 {
+				return []modLoc{{kind: "cell", comp: lv.comp, ref: lv.idx[0], typ: lv.typ}}
+			}
+			return []modLoc{{kind: "all"}}
 		}
 		if fn, _, _ := fv.calleeOf(call); fn != nil && fn.Name() == "gh_anyOf" && len(call.Args) == 1 {
 			// modifies anyOf(x.f): field f of any object (whole component)
